@@ -271,6 +271,8 @@ class StubSim(mosaik_api_v3.Simulator):
             what = v["what"]
             if what == "float":
                 return float(self.time + 1) + 0.5
+            if what == "float_integral":
+                return float(self.time + 1 + v.get("d", 0))
             if what == "str":
                 return str(self.time + 1)
             if what == "list":
